@@ -105,7 +105,12 @@ enum Kind {
 fn judge_cli(ctx: &Ctx, st: &mut Stats, d: &Degenerate, layout: &str, c: &CliCase, out_file: &str, out_dir: &str, stdin: Option<&[u8]>) {
     let case = || input_json(d, layout).set("argv", Json::s(c.args.join(" ")));
     let lim = CliLimits { wall: std::time::Duration::from_secs(180), cpu_max_s: 60.0, stall: std::time::Duration::from_secs(30) };
-    let res = run_cli(ctx, &c.args, stdin, &lim);
+    // every third case runs with stderr attached to a pseudo-terminal: progress bars are only drawn then
+    let tty = (hash_bytes(c.args.join(" ").as_bytes()) ^ hash_bytes(d.name.as_bytes())) % 3 == 0;
+    if tty {
+        st.class("stderr-is-a-tty");
+    }
+    let res = with_cli_extra(CliExtra { tty_stderr: tty, ..Default::default() }, || run_cli(ctx, &c.args, stdin, &lim));
     let input_class = if d.recs.is_empty() { "empty-input" } else { "records" };
     if res.cpu_exceeded {
         st.violate(&format!("cli.hang.cpu:{}", c.name), format!("consumed {:.0}s CPU on a {}-record degenerate input", res.cpu_s, d.recs.len()), case());
